@@ -490,9 +490,40 @@ fn errexit_in_trap_actions(ctx: &Ctx) -> u64 {
     n
 }
 
+// (g) an expansion error is an expansion error wherever the word stands — also in the operand of a
+// redirection, whatever kind of command carries it: a non-interactive shell stops
+fn expansion_errors_in_redirection_operands(ctx: &Ctx) -> u64 {
+    let mut n = 0;
+    for cmd in ["p a <${nosuch?}", "f <${nosuch?}", "{ p a; } >${nosuch?}", "<${nosuch?}", "v=1 2>${nosuch?}", "/bin/true <${nosuch?}", "p a <<E${nosuch?}\nx\nE", "( p a ) <${nosuch?}", "if s 0; then p a; fi <${nosuch?}"] {
+        for errexit in [false, true] {
+            let script = format!("{}f() {{ p f; }}\ntrap 'p x' EXIT\n{cmd}\np after\n", if errexit { "set -e\n" } else { "" });
+            let r = run_once(&Setup::script(&script), &Default::default());
+            n += 1;
+            let tr = r.all_trace();
+            let exits = tr.iter().filter(|t| t.starts_with("x:")).count();
+            let later: Vec<&String> = tr.iter().filter(|t| !t.starts_with("x:")).collect();
+            let problem = if r.panic.is_some() {
+                Some(("panic", format!("{:?}", r.panic)))
+            } else if !later.is_empty() {
+                Some((if cmd.starts_with('<') || cmd.starts_with("v=1 ") { "expansion-error-in-redirection-operand-of-nameless-command-ran-on" } else { "expansion-error-in-redirection-operand-ran-on" }, format!("commands ran after the expansion error: {later:?}")))
+            } else if exits != 1 {
+                Some(("exit-trap-count", format!("the EXIT trap ran {exits} times")))
+            } else if !matches!(r.end, End::Exited(s) if s != 0) {
+                Some(("status", format!("the shell ended {:?}, expected a non-zero exit status", r.end)))
+            } else {
+                None
+            };
+            if let Some((key, what)) = problem {
+                ctx.violation(&format!("c10:{key}"), &format!("`{cmd}` (errexit {errexit}): {what}; stderr {:?}", r.stderr.lines().next()), json!({"script": script}));
+            }
+        }
+    }
+    n
+}
+
 pub fn run(tier: Tier) -> i32 {
     let ctx = Ctx::new("C10", "exploration", tier);
-    let nameless = nameless_redirection_errors(&ctx) + errexit_in_trap_actions(&ctx);
+    let nameless = nameless_redirection_errors(&ctx) + errexit_in_trap_actions(&ctx) + expansion_errors_in_redirection_operands(&ctx);
     let dscripts = dominance_scripts();
     let d_runs = AtomicU64::new(0);
     let d_entered = AtomicU64::new(0);
